@@ -263,10 +263,19 @@ pub fn gen_fx_kind(src: &mut Src, ctx: &mut Ctx, d: Domain, sample_rate: u32, de
 				0 => src.pick(&[0.0, -12.0, -24.0, -60.0]),
 				_ => src.f64_uniform(-60.0, 6.0),
 			},
-			ratio: match src.weighted(&[2, 5, 1]) {
-				0 => src.pick(&[1.0, 2.0, 4.0, 100.0, 0.5]),
-				1 => src.f64_log(1.0, 50.0),
-				_ => src.f64_log(0.1, 1000.0),
+			ratio: {
+				// ratios between 0 and 1 are documented to expand; close to 0 the expansion overflows
+				// f32 (a known finding, excluded by construction unless asked for)
+				let r = match src.weighted(&[2, 5, 1]) {
+					0 => src.pick(&[1.0, 2.0, 4.0, 100.0, 0.5]),
+					1 => src.f64_log(1.0, 50.0),
+					_ => src.f64_log(0.01, 1000.0),
+				};
+				if r < 0.1 && ctx.exclude("compressor-expansion-ratio-below-0.1") {
+					0.1
+				} else {
+					r
+				}
 			},
 			attack_s: src.dur(0.5).as_secs_f64(),
 			release_s: src.dur(1.0).as_secs_f64(),
